@@ -15,7 +15,7 @@ RULE = ("lines = reference rendering of (record, dialect point); the full cross 
         "shape tuples (plain / blank-containing / each escaped reserved character / multi-valued / flag, 1..3 attributes "
         "quick, 1..5 thorough) x extra columns x '.' coordinates is executed, then random records; non-trivial = >= 2 "
         "attributes; distinct = distinct (dialect point, shape tuple, extras, dots) or distinct random line")
-REQUIRED = ["feature_from_line calls", "byte-identical prints", "strict=False comparisons", "_reconstruct contract evaluations"]
+REQUIRED = ["lines parsed again after editing the first result", "feature_from_line calls", "byte-identical prints", "strict=False comparisons", "_reconstruct contract evaluations"]
 ASSUMPTIONS = [
     "grammar: values are non-empty, do not begin/end with a blank, reserved characters appear only as upper-case "
     "percent-escapes (gff3 / unquoted gff2) or not at all (gtf: no ; \" , controls); gff3 values contain no double quote",
@@ -111,6 +111,22 @@ def check_line(ctx, rec, D, case):
                 ctx.violation(case, {"why": "strict=False rendering parses to an unequal Feature", "spaced": spaced,
                                      "got": str(g), "expected": str(f)})
                 return
+    # parsing is a function of the line: edit the first result in place, parse the same line again
+    if gkeys and (hash(line) & 7) == 0:
+        try:
+            f.attributes[gkeys[0]].append("edited-in-place")
+            f.attributes["added_key"] = ["x"]
+            f.dialect["order"].append("added_key")
+            h = feature_from_line(line, keep_order=True)
+            again = [(k, list(h.attributes[k])) for k in h.attributes.keys()]
+        except Exception as ex:
+            ctx.violation(case, {"why": "parsing the same line a second time raised %r" % (ex,), "line": line})
+            return
+        ctx.mon("lines parsed again after editing the first result")
+        if again != list(zip(ekeys, evals)) or str(h) != line:
+            ctx.violation(case, {"why": "a second parse of the same line is affected by edits made to the first result",
+                                 "line": line, "second_parse": again, "printed": str(h)})
+            return
     for v in contracts.drain():
         ctx.violation(case, v)
 
